@@ -576,12 +576,13 @@ def _strip_dollar(tr):
 
 def JOBS(tier):
     quick = tier == "quick"
-    t = 170 if quick else 1500
+    t = 170 if quick else 900
     jobs = []
-    ml = 3 if quick else 4
     names = list(TEMPLATES)
-    nsl = 2 if quick else 16
+    deep = ("whole", "authority", "userinfo", "host_after_at", "bracket", "path")
     for name in names:
+        ml = 3 if (quick or name not in deep) else 4
+        nsl = 2 if ml == 3 else 12
         for k in range(nsl):
             jobs.append({"func": "c14_template", "part": {"templates": [name], "maxlen": ml, "slice": [k, nsl]}, "timeout": t,
                          "path_timeout": 60, "samples": 1})
@@ -589,7 +590,7 @@ def JOBS(tier):
              "4294967376", "18446744073709551696"]
     jobs.append({"func": "c14_port", "part": {"maxlen": 3 if quick else 5, "extra": extra}, "timeout": t, "samples": 1})
     jobs.append({"func": "c14_dotseg", "part": {"maxn": 4 if quick else 5}, "timeout": t, "samples": 1})
-    ranges = [(0, 0x3FF), (0x400, 0x7FF)] if quick else [(lo, lo + 0x1FFF) for lo in range(0, 0x10000, 0x2000)] + [(0x10000, 0x107FF), (0x10F800, 0x10FFFF)]
+    ranges = [(0, 0x3FF), (0x400, 0x7FF)] if quick else [(lo, lo + 0xFFF) for lo in range(0, 0x3000, 0x1000)] + [(0xD700, 0xE0FF), (0xFF00, 0x100FF), (0x10FF00, 0x10FFFF)]
     for a in ALLOWED_SETS:
         for lo, hi in ranges:
             jobs.append({"func": "c14_char", "part": {"allowed": a, "lo": lo, "hi": hi}, "timeout": t, "samples": 1})
@@ -601,7 +602,7 @@ EVIDENCE = {
                         "hole of <= 3 characters over the 15-character alphabet '/\\\\?#@:%[].aA0 SP LF' (exhaustive), ports of <= 3 "
                         "digits + 12 boundary/overflow spellings, dot-segment lists of <= 4 segments from {., .., '', a, b.}, per-character encoding lemma for code points 0..0x7FF (every 1- and 2-byte UTF-8 form) x 4 allowed sets x "
                         "3 percent situations; values handed to the regex engine / codecs are solver-enumerated one model per path",
-               "thorough": "holes <= 4, ports <= 5 digits + overflow spellings, <= 5 segments, code points 0..0xFFFF + astral edges"},
+               "thorough": "holes <= 4 for the whole-input/authority/userinfo/host/bracket/path skeletons (<= 3 elsewhere), ports <= 5 digits + overflow spellings, <= 5 segments, code points 0..0x2FFF + surrogate/BMP/astral edges"},
     "outside": ["the running-time clause (no cost model of re backtracking within reach)",
                 "IDNA mapping tables (idna package): non-ASCII hosts are outside the alphabet",
                 "holes longer than the bound / characters outside the alphabet in E1 templates",
